@@ -143,10 +143,12 @@ Lemma dir_decision_erase c ms p ch :
 Proof.
   intros Q. unfold dir_decision. destruct (should_skip_dir c ms p); [reflexivity|].
   destruct (c_gitignore c); [|reflexivity]. cbn [negb orb] in Q.
-  unfold parse_dir_gi, gi_child_ok in *. rewrite find_child_erase.
-  destruct (find_child GI ch) as [[gn gk gs gd gff|gn gl gdf]|]; cbn [option_map erase_faults no_ff no_df ff_open df_open]; try reflexivity.
-  - apply negb_true_iff in Q. rewrite Q. reflexivity.
-  - apply negb_true_iff in Q. rewrite Q. reflexivity.
+  assert (E : parse_dir_gi p (map erase_faults ch) = parse_dir_gi p ch).
+  { unfold parse_dir_gi, gi_child_ok in *. rewrite find_child_erase.
+    destruct (find_child GI ch) as [[gn gk gs gd gff|gn gl gdf]|]; cbn [option_map erase_faults no_ff no_df ff_open df_open]; try reflexivity.
+    - apply negb_true_iff in Q. rewrite Q. reflexivity.
+    - apply negb_true_iff in Q. rewrite Q. reflexivity. }
+  rewrite E. reflexivity.
 Qed.
 
 Lemma sched_calls_dir_gen c ms p n ch df :
@@ -166,11 +168,11 @@ Lemma flat_map_map {A B C} (g : A -> B) (h : B -> list C) l : flat_map h (map g 
 Proof. induction l as [|x l IH]; [reflexivity|]. cbn [map flat_map]. rewrite IH. reflexivity. Qed.
 
 Theorem contained_core c : forall nd q ms,
-  tree_quiet c nd = true -> wf_tree nd = true -> ~ In DOT q ->
+  tree_quiet c nd = true -> gi_readable c nd = true -> wf_tree nd = true -> ~ In DOT q ->
   sched_calls c ms (mpath q) nd =
   filter (fun ep => survives c nd (skipn (length q) (spath (snd ep)))) (sched_calls c ms (mpath q) (erase_faults nd)).
 Proof.
-  induction nd as [n k sz d ff|n ch df IH] using node_ind2; intros q ms Q WF ND.
+  induction nd as [n k sz d ff|n ch df IH] using node_ind2; intros q ms Q GR WF ND.
   - (* file *)
     unfold sched_calls. cbn [erase_faults schedule flat_map call_events calls]. rewrite !app_nil_r.
     destruct (kind_accepted c k && _); [|reflexivity].
@@ -187,7 +189,8 @@ Proof.
       replace (skipn (length q) q) with (@nil N) by (symmetry; apply skipn_all). reflexivity.
   - (* directory *)
     cbn [erase_faults]. rewrite !sched_calls_dir_gen.
-    rewrite tree_quiet_dir in Q. apply andb_true_iff in Q as [QG QC].
+    rewrite tree_quiet_dir in Q. apply andb_true_iff in Q as [_ QC].
+    rewrite gi_readable_dir in GR. apply andb_true_iff in GR as [QG GC].
     rewrite dir_decision_erase by exact QG.
     destruct (dir_decision c ms (mpath q) ch) as [| |ms']; try reflexivity.
     rewrite wf_tree_dir in WF. apply andb_true_iff in WF as [WN WC].
@@ -226,8 +229,8 @@ Proof.
         rewrite (filter_ext_in _ (fun ep => survives c c1 (skipn (length (q ++ [node_name c1])) (spath (snd ep))))).
         -- assert (Hnm : node_name c1 <> DOT) by (apply (names_ok_not_dot _ WN); apply in_map; exact Hch).
            rewrite child_path_mpath by exact ND.
-           rewrite Forall_forall in IH. rewrite forallb_forall in QC, WC.
-           apply (IH c1 Hch (q ++ [node_name c1]) ms' (QC c1 Hch) (WC c1 Hch)).
+           rewrite Forall_forall in IH. rewrite forallb_forall in QC, WC, GC.
+           apply (IH c1 Hch (q ++ [node_name c1]) ms' (QC c1 Hch) (GC c1 Hch) (WC c1 Hch)).
            intros X; apply in_app_or in X as [X|[X|[]]]; [exact (ND X)|contradiction].
         -- intros ep Hin. rewrite (Pred c1 ep Hch Hin). rewrite (find_child_unique _ WNL c1 Hc). reflexivity.
       * intros c1 Hc.
@@ -258,15 +261,15 @@ Qed.
 
 Theorem faults_contained_lemma c t :
   c_fatal c = false -> no_limits c = true -> no_xpanic c -> c_paths c = [] -> tree_quiet c t = true ->
-  wf_tree t = true ->
+  gi_readable c t = true -> wf_tree t = true ->
   fs_calls c t = filter (fun ep => not_lost c t (snd ep)) (fs_calls c (erase_faults t)).
 Proof.
-  intros F NL NP P Q WF. unfold not_lost. destruct (node_stat_fails t) eqn:S.
+  intros F NL NP P Q GR WF. unfold not_lost. destruct (node_stat_fails t) eqn:S.
   - rewrite (filter_const _ false) by reflexivity.
     unfold fs_calls, fs_result. rewrite run_fs_root by exact P. rewrite S, handle_file_fserr_result by exact NL.
     rewrite F. reflexivity.
   - rewrite (fs_calls_quiet c t F NL NP P Q S).
     rewrite (fs_calls_quiet c (erase_faults t) F NL NP P (tree_quiet_erase c t)).
-    + apply (contained_core c t [] [] Q WF). intros [].
+    + apply (contained_core c t [] [] Q GR WF). intros [].
     + apply fault_free_stat. apply erase_fault_free.
 Qed.
